@@ -4,8 +4,12 @@
 CodeSECTION/CodeENDSECTION/CodePPSyms/PushSymbol/PopSymbol + the pass loop), (C) Spec/Scope.lean (`judge`: the manual's
 resolution over the section *tree*) on what the real asl did.  One generated program per source file: a section tree up
 to depth 4 with same-named symbols on several levels, definitions before/after use, every qualifier form, PUBLIC/GLOBAL
-exports to each ancestor, FORWARD, EQU/SET, temporaries ($$name, + - /, .name), PUSHV/POPV, with and without -U.  Every
-reference is a data word (`adr sym` on 6502 / `dw sym` on Z80) read back from the real .p through the Lean `pfile`
+exports to each ancestor, FORWARD, EQU/SET, temporaries ($$name, + - /, .name), PUSHV/POPV, with and without -U.
+Ranges of temporary symbols are opened by every kind of defining statement (label with/without colon, alone on its line, in
+front of a data pseudo-op or a macro call; EQU, =, SET, :=, EVAL, LABEL <value>, LABEL <pc>, ENUM/NEXTENUM members,
+name[section] EQU inside sections), the temporaries themselves are defined by labels as well as by EQU/=/LABEL, statements
+that define nothing (PUSHV/POPV, an inner SECTION) lie inside a range, and the composed names `parent.name` are read back.
+Every reference is a data word (`adr sym` on 6502 / `dw sym` on Z80) read back from the real .p through the Lean `pfile`
 reader; diagnostics come from the -E file with -n numbers.
 """
 import json
@@ -23,9 +27,15 @@ SIG_DOLLAR = "named-temp-reused-after-same-named-symbol"
 MAX_PASSES = 10       # hook H1: exit 97 when an 11th pass would be needed (pass livelock)
 
 CPUS = {
-    "6502": dict(cpu="6502", word="adr", set="set", nop=0xEA),
-    "z80": dict(cpu="z80", word="dw", set="eval", nop=0x00),
+    "6502": dict(cpu="6502", word="adr", set="set", nop=0xEA, pc="*"),
+    "z80": dict(cpu="z80", word="dw", set="eval", nop=0x00, pc="$"),
 }
+
+MACRO_HEAD = "mymac\tmacro\n\tnop\n\tendm\n"      # `name mymac`: a label in front of a macro call (body: one nop)
+
+# spellings of the defining statements (driver token form -> mnemonic); `set` is SET where the target has no SET instruction
+CONST_FORMS = ["equ", "eq", "lab"]
+VAR_FORMS = ["set", "asg", "eval"]
 
 SYM_POOL = ["sym", "val", "cnt", "lim", "Sym", "VAL", "ptr2", "x_1"]
 SEC_POOL = ["Alpha", "Beta", "Mod", "Proc", "alpha", "Q1", "Io"]
@@ -46,9 +56,17 @@ def tok(st):
     if k == "E":
         return "E:" + (hx(st[1]) if st[1] is not None else "-")
     if k == "D":
-        return "D:%s:%d:%d" % (hx(st[1]), st[2], 1 if st[3] else 0)
+        return "D:%s:%d:%d" % (hx(st[1]), st[2], 1 if st[3] else 0) + (":" + st[4] if len(st) > 4 else "")
     if k == "L":
-        return "L:" + hx(st[1])
+        return "L:" + hx(st[1]) + (":" + st[2] if len(st) > 2 else "")
+    if k == "T":
+        return "T:" + hx(st[1])
+    if k == "W":
+        return "W:%s:%s" % (hx(st[1]), hx(st[2]))
+    if k == "A":
+        return "A:" + hx(st[1])
+    if k == "N":
+        return "N:%d:%s" % (1 if st[1] else 0, ",".join(hx(a) + ("=%d" % b if b is not None else "") for a, b in st[2]))
     if k == "U":
         return "U:" + hx(st[1])
     if k in "FPG":
@@ -65,9 +83,20 @@ def render(st, c):
     if k == "E":
         return "\tendsection" + ("\t" + st[1] if st[1] is not None else "")
     if k == "D":
-        return "%s\t%s\t%d" % (st[1], c["set"] if st[3] else "equ", st[2])
+        form = st[4] if len(st) > 4 else ("set" if st[3] else "equ")
+        mn = {"equ": "equ", "eq": "=", "lab": "label", "set": c["set"], "asg": ":=", "eval": "eval"}[form]
+        return "%s\t%s\t%d" % (st[1], mn, st[2])
     if k == "L":
-        return "%s\tnop" % st[1]
+        form = st[2] if len(st) > 2 else "p"
+        return {"p": "%s\tnop", "c": "%s:\tnop", "m": "%s\tmymac"}[form] % st[1]
+    if k == "T":
+        return "%s:" % st[1]
+    if k == "W":
+        return "%s:\t%s\t%s" % (st[1], c["word"], st[2])
+    if k == "A":
+        return "%s\tlabel\t%s" % (st[1], c["pc"])
+    if k == "N":
+        return "\t%s\t%s" % ("nextenum" if st[1] else "enum", ",".join(a + ("=%d" % b if b is not None else "") for a, b in st[2]))
     if k == "U":
         return "\t%s\t%s" % (c["word"], st[1])
     if k in "FPG":
@@ -77,9 +106,17 @@ def render(st, c):
     raise ValueError(st)
 
 
+def uses_macro(stmts):
+    return any(s[0] == "L" and len(s) > 2 and s[2] == "m" for s in stmts)
+
+
+def line0_of(stmts):
+    return 5 if uses_macro(stmts) else 2
+
+
 def source(stmts, c):
-    head = "\tcpu\t%s\n\torg\t0\n" % c["cpu"]
-    return head + "\n".join(render(s, c) for s in stmts) + "\n", 2
+    head = "\tcpu\t%s\n\torg\t0\n" % c["cpu"] + (MACRO_HEAD if uses_macro(stmts) else "")
+    return head + "\n".join(render(s, c) for s in stmts) + "\n", line0_of(stmts)
 
 
 # ----------------------------------------------------------------------------------------------
@@ -289,6 +326,152 @@ class Gen:
             self.emit(("U", anchor + ".loc"))
             self.emit(("U", self.spell(anchor) + "c.loc"))
 
+    # --- temporaries whose range is opened by every kind of defining statement
+    OPENERS = ["label", "label:", "label-only", "label-macro", "label-word", "equ", "eq", "set", "asg", "eval", "lab", "lab-pc",
+               "enum", "nextenum", "equ-qual"]
+
+    def opener(self, path, base, kind, setnames, dotref):
+        """statements of one range-opening definition; returns (statements, name the manual calls 'most recently defined',
+        names whose values a later data word may show)"""
+        rng = self.rng
+        nm = base
+        if kind == "label":
+            return [("L", nm, "p")], nm, [nm]
+        if kind == "label:":
+            return [("L", nm, "c")], nm, [nm]
+        if kind == "label-only":
+            return [("T", nm)], nm, [nm]
+        if kind == "label-macro":
+            return [("L", nm, "m")], nm, [nm]
+        if kind == "label-word":
+            # the operand may be the line's own label or a composed temporary of the range this very label opens
+            return [("W", nm, rng.choice([nm, self.spell(nm)] + ([dotref, dotref] if dotref else [])))], nm, [nm]
+        if kind in ("equ", "eq", "lab"):
+            return [("D", nm, self.val(), False, kind)], nm, [nm]
+        if kind in ("set", "asg", "eval"):
+            if self.inj == "dollar" and setnames and rng.random() < 0.6:
+                # the same variable assigned again opens a new range by the manual (the name of the range stays the same:
+                # input class of the finding named-temp-reused-after-same-named-symbol when the spelling is identical)
+                nm = rng.choice(setnames)
+                nm = nm if rng.random() < 0.6 else self.spell(nm)
+                self.stats["injected"] += 1
+            else:
+                setnames.append(nm)
+            return [("D", nm, self.val(), True, kind)], nm, [nm]
+        if kind == "lab-pc":
+            return [("A", nm)], nm, [nm]
+        if kind in ("enum", "nextenum"):
+            n = rng.choice([1, 2, 3])
+            items = []
+            for i in range(n):
+                items.append((nm + "abc"[i], self.val() if rng.random() < 0.3 else None))
+            return [("N", kind == "nextenum", items)], items[-1][0], [a for a, _ in items]
+        if kind == "equ-qual":
+            # defined into an enclosing section (or the global level) by name[section]: the *name* still opens the range
+            home = path[:rng.randrange(0, len(path) + 1)]
+            form = rng.choice(CONST_FORMS)
+            return [("D", "%s[%s]" % (nm, self.qual_for(path, home)), self.val(), False, form)], nm, [nm]
+        raise ValueError(kind)
+
+    def tmp_def(self, name):
+        """a definition of the temporary `name` by a random defining statement"""
+        rng = self.rng
+        r = rng.random()
+        if r < 0.3:
+            return ("L", name, "p")
+        if r < 0.5:
+            return ("L", name, "c")
+        if r < 0.6:
+            return ("T", name)
+        if r < 0.7:
+            return ("W", name, self.spell(name))
+        if r < 0.8:
+            return ("L", name, "m")
+        if r < 0.95:
+            return ("D", name, self.val(), False, rng.choice(CONST_FORMS))
+        return ("A", name)
+
+    def range_block(self, path):
+        rng = self.rng
+        self.stats["tmp_ranges"] = self.stats.get("tmp_ranges", 0) + 1
+        base = "r%d" % len(self.out)
+        nranges = rng.choice([2, 3, 3, 4, 5])
+        dot = rng.choice([".loc", ".lp", ".L1"])
+        dol = rng.choice(["$$lp", "$$t", "$$Go"])
+        setnames = []
+        composed = []        # full names parent.temp that exist
+        shown = []
+        if rng.random() < 0.2:
+            # temporaries before the first opener of this block: they belong to whatever was defined last before it
+            for t in rng.sample([dot, dol], rng.choice([1, 2])):
+                self.emit(self.tmp_def(t))
+                self.emit(("U", self.spell(t)))
+        for i0 in range(nranges):
+            kind = rng.choice(self.OPENERS)
+            if kind == "equ-qual" and not path and rng.random() < 0.5:
+                kind = "equ"
+            what = rng.choice(["dot", "dot", "dol", "dol", "both", "both", "none"])
+            sts, last, names = self.opener(path, "%s%s" % (base, "uvwxyz"[i0]), kind, setnames, dot if what in ("dot", "both") else None)
+            key = "open_" + kind
+            self.stats[key] = self.stats.get(key, 0) + 1
+            for st in sts:
+                self.emit(st)
+            shown += names
+            seq = []
+            if what in ("dot", "both"):
+                if rng.random() < 0.4:
+                    seq.append(("U", self.spell(dot)))
+                seq.append(self.tmp_def(dot))
+                for _ in range(rng.choice([0, 1, 1, 2])):
+                    seq.append(("U", self.spell(dot)))
+                composed.append(last + dot)
+                self.stats["tmp_composed"] += 1
+            if what in ("dol", "both"):
+                seq2 = []
+                if rng.random() < 0.4:
+                    seq2.append(("U", self.spell(dol)))
+                seq2.append(self.tmp_def(dol))
+                for _ in range(rng.choice([0, 1, 1, 2])):
+                    seq2.append(("U", self.spell(dol)))
+                self.stats["tmp_named"] += 1
+                # interleave the two kinds keeping each one's own order
+                merged = []
+                while seq or seq2:
+                    src = seq if (seq and (not seq2 or rng.random() < 0.5)) else seq2
+                    merged.append(src.pop(0))
+                seq = merged
+            if rng.random() < 0.3 and composed:
+                seq.insert(rng.randrange(len(seq) + 1), ("U", self.spell(rng.choice(composed))))
+            # statements that define no symbol do not end the range: PUSHV/POPV of a variable, an (otherwise empty) section
+            r = rng.random()
+            if r < 0.12 and setnames and seq:
+                v = rng.choice(setnames)
+                i = rng.randrange(len(seq) + 1)
+                j = rng.randrange(i, len(seq) + 1)
+                seq.insert(j, ("O", "", [v]))
+                seq.insert(i, ("V", "", [v]))
+                self.stats["range_nonopener"] = self.stats.get("range_nonopener", 0) + 1
+            elif r < 0.24 and seq:
+                i = rng.randrange(len(seq) + 1)
+                j = rng.randrange(i, len(seq) + 1)
+                inner = [x for x in seq[i:j] if x[0] == "U"]      # references only: definitions inside would be local to it
+                if len(inner) == j - i:
+                    sn = "%ss%d" % (base, i0)
+                    seq.insert(j, ("E", None if rng.random() < 0.5 else sn))
+                    seq.insert(i, ("S", sn))
+                    self.stats["range_nonopener"] = self.stats.get("range_nonopener", 0) + 1
+            for st in seq:
+                self.emit(st)
+        # the composed names stay reachable from outside their range; the opening symbols have their values
+        for full in composed:
+            if rng.random() < 0.8:
+                self.emit(("U", self.spell(full)))
+        for nm in shown:
+            if rng.random() < 0.4:
+                self.emit(("U", self.spell(nm)))
+        # close the block with an ordinary label so that whatever follows starts in a range of its own
+        self.emit(("L", base + "end"))
+
     def pushpop_block(self, path):
         rng = self.rng
         self.stats["pushpop"] += 1
@@ -340,6 +523,8 @@ class Gen:
             items.insert(rng.randrange(len(items) + 1), ("use", None))
         if rng.random() < 0.3:
             items.insert(rng.randrange(len(items) + 1), ("tmp", None))
+        if rng.random() < 0.3:
+            items.insert(rng.randrange(len(items) + 1), ("rng", None))
         if rng.random() < 0.2:
             items.insert(rng.randrange(len(items) + 1), ("pp", None))
         # declarations first (somewhere before the definition): emit them at the top in random grouping
@@ -369,6 +554,8 @@ class Gen:
                 self.use(path)
             elif kind == "tmp":
                 self.tmp_block(path)
+            elif kind == "rng":
+                self.range_block(path)
             elif kind == "pp":
                 self.pushpop_block(path)
             elif kind == "kid":
@@ -447,7 +634,34 @@ def shadow_shape(rng, cs, forward, force_second_pass, depth):
     return out
 
 
+def range_shape(rng, cs, kind, in_section):
+    """a label opens a range with `.t` and `$$t`; one definition of the given kind follows; `.t` and `$$t` are defined again and
+    every composed name is read back (systematically, one program per kind of defining statement)"""
+    g = Gen(rng, cs, 1)
+    g.inj = None
+    path = ("Proc",) if in_section else ()
+    out = [("S", "Proc")] if in_section else []
+    out += [("L", "first", "p"), ("L", ".t", "c"), ("U", ".t"), ("L", "$$t", "c"), ("U", "$$t")]
+    sts, last, names = g.opener(path, "nxt", kind, [], ".t")
+    out += sts
+    out += [("U", ".t"), ("L", ".t", "c"), ("U", "$$t"), ("L", "$$t", "p"), ("U", ".t"), ("U", "$$t"),
+            ("U", "first.t"), ("U", last + ".t")] + [("U", n) for n in names]
+    if in_section:
+        out.append(("E", None))
+    return out
+
+
 CORPUS_BUILTIN = [
+    ("manual-temporaries-after-equ-set", False, "6502", [
+        ("L", "proc1", "c"), ("L", ".loop", "c"), ("U", ".loop"), ("D", "size", 4, False, "equ"), ("L", ".loop", "c"), ("U", ".loop"),
+        ("U", "proc1.loop"), ("U", "size.loop"), ("L", "$$t", "c"), ("U", "$$t"), ("D", "limit", 9, True, "set"), ("L", "$$t", "c"),
+        ("U", "$$t")]),
+    ("enum-values", False, "z80", [
+        ("N", False, [("jan", 1), ("feb", None), ("mar", None)]), ("L", ".q"), ("N", True, [("apr", None), ("may", 9)]), ("L", ".q"),
+        ("N", False, [("zero", None), ("one", None)]), ("U", "jan"), ("U", "feb"), ("U", "mar"), ("U", "apr"), ("U", "may"), ("U", "zero"),
+        ("U", "one"), ("U", "mar.q"), ("U", "may.q")]),
+    ("dollar-after-respelled-name", False, "6502", [
+        ("D", "Tv", 1, True, "set"), ("L", "$$q"), ("D", "tv", 2, True, "asg"), ("L", "$$q"), ("U", "$$q")]),
     ("manual-scope-table", False, "6502", [
         ("D", "sym", 0, False), ("S", "ModuleA"), ("S", "ProcA1"), ("D", "sym", 5, False), ("U", "sym"), ("E", "ProcA1"),
         ("S", "ProcA2"), ("D", "sym", 10, False), ("U", "sym"), ("E", "ProcA2"), ("U", "sym"), ("E", "ModuleA"),
@@ -538,7 +752,7 @@ def kv(ans):
 
 def request(case, obs):
     c = CPUS[case["cpu"]]
-    return "%d %02x %d %s %s" % (1 if case["cs"] else 0, c["nop"], 2, obs, " ".join(tok(s) for s in case["stmts"]))
+    return "%d %02x %d %s %s" % (1 if case["cs"] else 0, c["nop"], line0_of(case["stmts"]), obs, " ".join(tok(s) for s in case["stmts"]))
 
 
 def classify(k, case, obs, src):
@@ -584,6 +798,8 @@ def load_stmt(x):
         return (k, [(a, b) for a, b in x[1]])
     if k in "VO":
         return (k, x[1], list(x[2]))
+    if k == "N":
+        return (k, x[1], [(a, b) for a, b in x[2]])
     return tuple(x)
 
 
@@ -604,6 +820,12 @@ def gen_cases(rng, n_rand, thorough):
             for force in (False, True):
                 cases.append(dict(tag="shadow:d%d:f%d:p%d" % (depth, forward, force), cs=False, cpu=rng.choice(list(CPUS)),
                                   stmts=shadow_shape(rng, False, forward, force, depth), stats=None))
+    # every kind of defining statement as the opener of a range of temporary symbols, systematically
+    for kind in Gen.OPENERS:
+        for in_section in (False, True):
+            cs = rng.random() < 0.4
+            cases.append(dict(tag="range:%s:s%d" % (kind, in_section), cs=cs, cpu=rng.choice(list(CPUS)),
+                              stmts=range_shape(rng, cs, kind, in_section), stats=None))
     for i in range(n_rand):
         cs = rng.random() < 0.4
         g = Gen(rng, cs, rng.choice([1, 2, 3, 3, 4, 4]))
@@ -670,7 +892,9 @@ def run(args):
     res.assumptions = [
         "only integer symbols; values 0..0x7fff so that a 16-bit data word shows the value",
         "label values are addresses computed as 2 bytes per data word and 1 byte per `nop` (address bookkeeping is C10's subject)",
-        "macro-local symbols (FindLocNode/EnterLocSymbol) are outside the model (C11); every program runs outside macros"]
+        "macro-local symbols (FindLocNode/EnterLocSymbol) are outside the model (C11); every program runs outside macros; the one "
+        "macro call that occurs (`name mymac`, body = one `nop`, no parameters) is modelled as label + one byte",
+        "ENUM/NEXTENUM with the default ENUMCONF (increment 1, no segment)"]
     return common.conclude(res, proof_problems, spec_fail, corr_fail, len(cases))
 
 
